@@ -222,13 +222,18 @@ type countStore struct {
 	desync.Store
 	mu   sync.Mutex
 	seen map[desync.ChunkID]int
+	hold *holder // every good chunk the consumer was given stays held here
 }
 
 func (c *countStore) GetChunk(id desync.ChunkID) (*desync.Chunk, error) {
 	c.mu.Lock()
 	c.seen[id]++
 	c.mu.Unlock()
-	return c.Store.GetChunk(id)
+	ch, err := c.Store.GetChunk(id)
+	if c.hold != nil {
+		c.hold.keep("the consumer", id, ch, err)
+	}
+	return ch, err
 }
 
 func (c *countStore) asked(id desync.ChunkID) int {
@@ -566,7 +571,21 @@ func runPipeline(c Case) (o hx.Outcome) {
 	}
 	st := buildStack(lf.store, c.Stack, healthy)
 	defer st.close()
-	cs := &countStore{Store: st.top, seen: map[desync.ChunkID]int{}}
+	hold := &holder{}
+	cs := &countStore{Store: st.top, seen: map[desync.ChunkID]int{}, hold: hold}
+	// after the consumer is done: every chunk it was given is still held; all IDs of the index
+	// (and one nobody has) are requested once more from the same backend store, then the held
+	// chunks are looked at again
+	recheckHeld := func(where string) {
+		var ids []desync.ChunkID
+		for _, it := range pd.items {
+			if it.id != victim.id {
+				ids = append(ids, it.id)
+			}
+		}
+		n := hold.followUp("a follow-up request to the backend", lf.store, ids, []desync.ChunkID{realID([]byte("nobody has this"))})
+		hold.recheck(&o, lf.kind+":"+fmtn, where, n)
+	}
 
 	where := fmt.Sprintf("consumer %s (n=%d pre=%q seek=%d), %d chunks / %d bytes, victim chunk %d (%d bytes at %d), backend %s/%s hops %s, stack [%s]",
 		p.Consumer, p.N, p.Pre, p.Seek, len(pd.items), len(pd.blob), pd.victim, len(victim.data), pd.idx.Chunks[pd.victim].Start, lf.kind, fmtn, lf.hopString(), st.shapeString())
@@ -589,6 +608,9 @@ func runPipeline(c Case) (o hx.Outcome) {
 		where += fmt.Sprintf(", index claims %d bytes for the %d-byte chunk", claimed, len(victim.data))
 		err, diff := consume(p, pd, cs)
 		fetched := cs.asked(victim.id) > 0
+		if err != errHang {
+			recheckHeld(where)
+		}
 		switch {
 		case err == errPanic:
 			o.Fail("C03:"+p.Consumer+":panic", "the consumer panicked on an index entry whose size differs from the (valid) chunk: %s — %s", clip(diff), where)
@@ -622,6 +644,9 @@ func runPipeline(c Case) (o hx.Outcome) {
 	o.Class("asserted")
 	err, diff := consume(p, pd, cs)
 	fetched := cs.asked(victim.id) > 0
+	if err != errHang {
+		recheckHeld(where)
+	}
 	switch {
 	case err == errPanic:
 		o.Fail("C03:"+p.Consumer+":panic", "the consumer panicked: %s — %s", clip(diff), where)
